@@ -92,8 +92,8 @@ NameBreak(n) ==
   ELSE "name-non-ascii"
 ValueBreak(v) ==
   IF \E i \in DOMAIN v : v[i] \in {NUL, LF, CR} THEN "value-nul-cr-lf"
-  ELSE IF v[1] \in {SP, HT} THEN (IF Len(v) = 1 THEN "value-only-whitespace" ELSE "value-leading-whitespace")
-  ELSE "value-trailing-whitespace"
+  ELSE IF v[1] \in {SP, HT} THEN (IF Len(v) = 1 THEN "value-only-ws" ELSE "value-leading-ws")
+  ELSE "value-trailing-ws"
 BrokenRule(kind, hs) ==
   IF ~NamesOk(hs) THEN NameBreak(hs[CHOOSE i \in DOMAIN hs : ~NameOk(hs[i][1])][1])
   ELSE IF ~ValuesOk(hs) THEN ValueBreak(hs[CHOOSE i \in DOMAIN hs : ~ValueOk(hs[i][2])][2])
